@@ -55,6 +55,10 @@ var c20Pos = map[string]c20Pt{
 var reRoam = regexp.MustCompile(`"(nearby|faraway)":\{"key":"[^"]*","id":"([^"]*)".*?"meters":([0-9.eE+-]+)`)
 
 type c20Config struct {
+	// Region: where the whole configuration sits: "" = around (0,0); "antimeridian"
+	// = the same offsets around lon 180 (neighbours on both sides of +-180);
+	// "pole" = around lat 89.995 (the radius circle covers the pole)
+	Region  string   `json:"region,omitempty"`
 	RoamKey string   `json:"roam_key"`
 	Neigh   []string `json:"neighbours"`
 	Pattern string   `json:"pattern"`
@@ -63,7 +67,7 @@ type c20Config struct {
 }
 
 func checkC20(job *Job, res *Result) {
-	res.Rule = "SEQ over configurations: 1-2 (thorough 1-3) neighbours out of 7 placements x id pattern {*, exact, n*, non-matching, [nx]?, ?B} x NODWELL x all move histories of length 1-2 (thorough 1-3) over {T, T2 (200 m away), Far, and moves preceded by DROP+re-add / RENAME cycle / delete-all+mirror of the roamed collection}, repeated positions included, roamed key = fenced key or a separate key; receivers channel + live + webhook; expected nearby/faraway sets and metres from haversine distances; distinct = distinct (configuration, expected message list)"
+	res.Rule = "SEQ over configurations: 1-2 (thorough 1-3) neighbours out of 7 placements x id pattern {*, exact, n*, non-matching, [nx]?, ?B} x NODWELL x all move histories of length 1-2 (thorough 1-3) over {T, T2 (200 m away), Far, and moves preceded by DROP+re-add / RENAME cycle / delete-all+mirror of the roamed collection}, repeated positions included, roamed key = fenced key or a separate key; the plain configurations repeated around the antimeridian and next to the pole; a ROAM pattern naming the moving object itself; receivers channel + live + webhook; expected nearby/faraway sets and metres from haversine distances; distinct = distinct (configuration, expected message list)"
 	res.Assumptions = append(res.Assumptions, "metres are compared with a relative tolerance of 1e-6 + 2 mm (sphere of radius 6371 km)")
 	names := []string{"nA", "nB", "nC", "nD", "nE", "nF", "xG"}
 	maxN, maxMoves := 2, 2
@@ -103,19 +107,30 @@ func checkC20(job *Job, res *Result) {
 	gen(nil)
 	var cfgs []c20Config
 	for _, ns := range subsets {
-		for _, pat := range []string{"*", "nB", "n*", "zz*", "[nx]?", "?B"} {
+		for _, pat := range []string{"*", "nB", "n*", "zz*", "[nx]?", "?B", "m"} { // "m" = the exact id of the moving object itself
 			for _, nd := range []bool{false, true} {
 				for _, h := range hists {
 					events := strings.Contains(strings.Join(h, " "), "+")
 					if !events {
-						cfgs = append(cfgs, c20Config{"fleet", ns, pat, nd, h})
+						cfgs = append(cfgs, c20Config{"", "fleet", ns, pat, nd, h})
 					}
 					if events || len(ns) == 1 {
 						// the roamed collection is a different key (collection events only make sense there)
-						cfgs = append(cfgs, c20Config{"others", ns, pat, nd, h})
+						cfgs = append(cfgs, c20Config{"", "others", ns, pat, nd, h})
 					}
 				}
 			}
+		}
+	}
+	// the plain configurations again, around the antimeridian and next to the pole
+	nplain := len(cfgs)
+	for _, region := range []string{"antimeridian", "pole"} {
+		for _, cf := range cfgs[:nplain] {
+			if cf.RoamKey != "fleet" || cf.Pattern != "*" || cf.NoDwell || len(cf.Moves) > 2 {
+				continue
+			}
+			cf.Region = region
+			cfgs = append(cfgs, cf)
 		}
 	}
 	var only *c20Config
@@ -139,16 +154,35 @@ func checkC20(job *Job, res *Result) {
 		}
 		cfg := cfg
 		viol := func(sig, detail string) {
-			res.Violate("C20/"+sig, fmt.Sprintf("%s  [roamed key %s, neighbours %v, ROAM pattern %q, nodwell=%v, moves %v]", detail, cfg.RoamKey, cfg.Neigh, cfg.Pattern, cfg.NoDwell, cfg.Moves), cfg)
+			res.Violate("C20/"+sig, fmt.Sprintf("%s  [region %q, roamed key %s, neighbours %v, ROAM pattern %q, nodwell=%v, moves %v]", detail, cfg.Region, cfg.RoamKey, cfg.Neigh, cfg.Pattern, cfg.NoDwell, cfg.Moves), cfg)
 		}
 		x := runExec(job, freezeAllBut("manager"), func(x *Exec) {
 			in := x.Start("L", x.dir+"/L", 9001, nil)
 			c := x.Dial(in.Addr)
 			rkey := cfg.RoamKey
 			// current neighbour positions (collection events may move them)
+			place := func(q c20Pt) c20Pt {
+				switch cfg.Region {
+				case "antimeridian":
+					q.Lon += 180
+					if q.Lon > 180 {
+						q.Lon -= 360
+					}
+				case "pole":
+					// lon offsets become bearings around the pole (x 5000: 0.0045 deg -> 22 deg)
+					q.Lat, q.Lon = 89.995-q.Lat, math.Mod(q.Lon*5000, 360)
+					if q.Lon > 180 {
+						q.Lon -= 360
+					}
+					if q.Lon < -180 {
+						q.Lon += 360
+					}
+				}
+				return q
+			}
 			pos := map[string]c20Pt{}
 			for _, n := range cfg.Neigh {
-				pos[n] = c20Neigh[n]
+				pos[n] = place(c20Neigh[n])
 			}
 			putAll := func(key string) {
 				for _, n := range cfg.Neigh {
@@ -203,7 +237,7 @@ func checkC20(job *Job, res *Result) {
 					hookSeen = len(ep.OK())
 					mv = mv[:i]
 				}
-				p := c20Pos[mv]
+				p := place(c20Pos[mv])
 				c.Do("SET", "fleet", "m", "POINT", fnum(p.Lat), fnum(p.Lon))
 				vsched.Quiesce()
 				// expected
@@ -302,7 +336,7 @@ func checkC20(job *Job, res *Result) {
 						}
 					}
 				}
-				res.DistinctS(fmt.Sprint(cfg.Neigh, cfg.Pattern, cfg.NoDwell, cfg.Moves[:mi+1], wantS))
+				res.DistinctS(fmt.Sprint(cfg.Region, cfg.Neigh, cfg.Pattern, cfg.NoDwell, cfg.Moves[:mi+1], wantS))
 				pp := p
 				prev = &pp
 			}
